@@ -8,6 +8,10 @@ ids = [p["id"] for p in props]
 
 # id -> (engine, technique, level text, level note, design ref)
 CHECKS = {
+ "C11": ("E4", "exhaustive crash-point enumeration: every prefix of every permutation (of the map-ordered certificate uploads) of the object-write log recorded from the real bootstrap and rotations, each crash store reloaded and checked",
+         "The write log of a first bootstrap, of two (thorough: three) successive rotations and of a rotation retried with --overwrite after a crash is recorded from the real code over a logging storage client; every order in which one Finalize may upload its pending certificates and every prefix of each ordered log is materialised, then read back raw, through a fresh gcsca authority, and on local disk through storage/local + localca's start-up check; repeated real bootstraps must produce one of the enumerated orders (conformance of the map-order model).",
+         "Trusted: object granularity (a closed writer is atomic and durable), as the property states; the space is small because the code performs 2-4 writes per operation - the value is that it is derived from the recorded log and therefore follows any reordering of the code.",
+         "DESIGN.md#c11"),
  "C10": ("E4", "exhaustive fault/crash-point enumeration over the seam calls of the real rotate.Key (choice tree with deviation bound), with reload of the authority and a post-fault invariant plus a destroy-time monitor",
          "Every call one rotation makes to the key manager, signer, certificate authority and (for gcsca) storage is a choice point {ok, fault, crash-after}; all single deviations (quick) and all pairs (thorough) are executed from two pre-states for memkm+memca, memkm+gcsca and localkm+localca; afterwards the authority is reloaded from durable state and the recorded primary key must be live, certified, chained to the root and able to endorse; the old key may only be destroyed once the new primary is durable; a fault-free --overwrite rotation must then succeed.",
          "Trusted: the harness's in-memory object store models storage at object granularity; memkm key material is treated as durable ('the key service'); the Cloud KMS manager is covered by C20, not here; local-storage faults are injected at the authority/key-manager seam only (local.StorageClient cannot be decorated without breaking localca's type check).",
